@@ -196,7 +196,8 @@ class Prop:
     required_theorems = ['frames_within_limit', 'decode_encode_routes', 'split_preserves_multiset', 'reach_frames_all_families',
                          'unreach_frames_all_families', 'open_roundtrip', 'frame_lengths_consistent', 'eor_frame',
                          'peer_codec_agrees', 'as4_path_roundtrip', 'unreach_never_refused', 'reach_never_refused', 'decode_encode_routes_labeled',
-                         'decode_encode_routes_structured', 'split_preserves_multiset_structured', 'structured_fixpoint']
+                         'decode_encode_routes_structured', 'split_preserves_multiset_structured', 'structured_fixpoint',
+                         'decode_encode_decode_fixpoint_nlri']
     extra_targets = ['Model/WireEnc.vo']
     correspondence_name = 'Model/WireEnc.v encode_to vs rustybgp_packet::bgp::PeerCodec::encode_to (harness/hx-enc), debug and release'
     rule = ('case = (local capabilities, remote capabilities, message); messages: OPEN with capability lists whose encoded size runs through 255 '
